@@ -253,7 +253,9 @@ def build_dataset(dendropy, spec, rng):
         ns = nss[c["ns"] - 1]
         title = X.lab(c["title"]) or None
         if c["kind"] == "CHARACTERS":
-            t = c.get("type") or ["dna", "standard", "protein", "continuous", "rna"][k % 5]
+            # several matrices of one data set: all of the same type for half of the cases, mixed otherwise
+            tt = ["dna", "standard", "protein", "continuous", "rna"]
+            t = c.get("type") or (tt[spec.get("variant", 0) % 5] if spec.get("variant", 0) % 2 == 0 else tt[(spec.get("variant", 0) + k) % 5])
             syms = X.full_symbols(t) if t != "continuous" else ["1/2", "-5/4", "3/1", "1/100000"]
             ncol = c.get("ncol", 3)
             am = {"type": t, "taxa": [X.chars(x.label) for x in ns],
@@ -420,7 +422,7 @@ def run_case(case):
             elif kind == "random_matrix":
                 _random_matrix(dendropy, case, rng, tmpdir, evs)
             elif kind == "model_dataset":
-                ds = build_dataset(dendropy, case["ds"], rng)
+                ds = build_dataset(dendropy, dict(case["ds"], variant=case.get("seed", 0)), rng)
                 ds2 = dataset_round_trip(dendropy, ds, case["f"], case["setting"], evs, how=case.get("seed", 0))
                 if ds2 is not None and case.get("leg2"):
                     other = "nexml" if case["f"] == "nexus" else "nexus"
@@ -526,7 +528,7 @@ def _random_dataset(dendropy, case, rng, evs):
     comps = []
     for _ in range(rng.randint(1, 4)):
         comps.append({"kind": rng.choice(["CHARACTERS", "TREES"]), "ns": rng.randint(1, nns),
-                      "title": X.chars(rng.choice(TITLE_POOL[:6])), "type": rng.choice(["dna", "rna", "protein", "standard", "continuous"]),
+                      "title": X.chars(rng.choice(TITLE_POOL[:6])), "type": rng.choice(["dna", "dna", "protein", "standard", "continuous", "rna"]),
                       "ncol": rng.randint(1, 6), "ntrees": rng.randint(1, 3)})
     ds = build_dataset(dendropy, {"nss": nss, "comps": comps}, rng)
     fmt = rng.choice(["nexus", "nexus", "nexml"])
